@@ -1,3 +1,144 @@
-import RelicVerif.Model.Bn
+/-
+C01 — Multi-precision integer arithmetic is exact.
+Property theorems only; helper lemmas live in RelicVerif/Lemmas. Each theorem is about the hand-written
+model of RelicVerif/Model/Bn.lean (tied to the C code by the correspondence run of tools/check.py C01).
+
+`Exact B r v` : if the modelled function returns (no precision error), the result is in normal form
+(no leading zero digit, digits < B, zero non-negative) and denotes exactly the integer v.
+-/
+import RelicVerif.Lemmas.BnHighMul
+
 namespace Relic.Props.C01
+open Relic.Model
+
+abbrev Exact := @ExactR
+
+variable (cfg : Cfg)
+
+/-! ### add / subtract -/
+theorem bn_add_exact (hw : 0 < cfg.w) (a b : Bn) (ha : a.WF cfg.B) (hb : b.WF cfg.B) :
+    Exact cfg.B (bnAdd cfg a b) (a.toInt cfg.B + b.toInt cfg.B) := bnAdd_exact cfg hw a b ha hb
+
+theorem bn_sub_exact (hw : 0 < cfg.w) (a b : Bn) (ha : a.WF cfg.B) (hb : b.WF cfg.B) :
+    Exact cfg.B (bnSub cfg a b) (a.toInt cfg.B - b.toInt cfg.B) := bnSub_exact cfg hw a b ha hb
+
+/-- a precision error is raised only when the operands leave no room for the carry digit -/
+theorem bn_add_total (a b : Bn) (h : max a.used b.used < cfg.cap) : (bnAdd cfg a b).isSome :=
+  bnAdd_total cfg a b h
+
+theorem bn_sub_total (a b : Bn) (h : max a.used b.used < cfg.cap) : (bnSub cfg a b).isSome :=
+  bnSub_total cfg a b h
+
+theorem bn_add_dig_exact (hw : 0 < cfg.w) (a : Bn) (d : Nat) (ha : a.WF cfg.B) (hd : d < cfg.B) :
+    Exact cfg.B (bnAddDig cfg a d) (a.toInt cfg.B + d) := bnAddDig_exact cfg hw a d ha hd
+
+theorem bn_sub_dig_exact (hw : 0 < cfg.w) (a : Bn) (d : Nat) (ha : a.WF cfg.B) (hd : d < cfg.B) :
+    Exact cfg.B (bnSubDig cfg a d) (a.toInt cfg.B - d) := bnSubDig_exact cfg hw a d ha hd
+
+/-! ### multiply / square: every selectable algorithm -/
+theorem bn_mul_dig_exact (hw : 0 < cfg.w) (a : Bn) (d : Nat) (ha : a.WF cfg.B) (hd : d < cfg.B) :
+    Exact cfg.B (bnMulDig cfg a d) (a.toInt cfg.B * d) := bnMulDig_exact cfg hw a d ha hd
+
+theorem bn_mul_basic_exact (hw : 0 < cfg.w) (a b : Bn) (ha : a.WF cfg.B) (hb : b.WF cfg.B) :
+    Exact cfg.B (bnMulBasic cfg a b) (a.toInt cfg.B * b.toInt cfg.B) := bnMulBasic_exact cfg hw a b ha hb
+
+/-- Comba: needs the operand lengths below the digit base (column sums fit the triple register) -/
+theorem bn_mul_comba_exact (hw : 0 < cfg.w) (a b : Bn) (ha : a.WF cfg.B) (hb : b.WF cfg.B)
+    (hs : min a.used b.used < cfg.B) :
+    Exact cfg.B (bnMulComba cfg a b) (a.toInt cfg.B * b.toInt cfg.B) := bnMulComba_exact cfg hw a b ha hb hs
+
+theorem bn_mul_karat_exact (hw : 0 < cfg.w) (a b : Bn) (ha : a.WF cfg.B) (hb : b.WF cfg.B)
+    (hs : max a.used b.used + 1 < cfg.B) :
+    Exact cfg.B (bnMulKarat cfg a b) (a.toInt cfg.B * b.toInt cfg.B) := bnMulKarat_exact cfg hw a b ha hb hs
+
+theorem bn_sqr_comba_exact (hw : 0 < cfg.w) (a : Bn) (ha : a.WF cfg.B) (hs : a.used < cfg.B) :
+    Exact cfg.B (bnSqrComba cfg a) (a.toInt cfg.B * a.toInt cfg.B) := bnSqrComba_exact cfg hw a ha hs
+
+theorem bn_sqr_karat_exact (hw : 0 < cfg.w) (a : Bn) (ha : a.WF cfg.B) (hs : a.used + 1 < cfg.B) :
+    Exact cfg.B (bnSqrKarat cfg a) (a.toInt cfg.B * a.toInt cfg.B) := bnSqrKarat_exact cfg hw a ha hs
+
+theorem bn_mul_total (a b : Bn) (h : a.used + b.used ≤ cfg.cap) :
+    (bnMulBasic cfg a b).isSome ∧ (bnMulComba cfg a b).isSome := bnMul_total cfg a b h
+
+/-! ### shifts, doubling, halving -/
+theorem bn_dbl_exact (hw : 0 < cfg.w) (a : Bn) (ha : a.WF cfg.B) :
+    Exact cfg.B (bnDbl cfg a) (2 * a.toInt cfg.B) := bnDbl_exact cfg hw a ha
+
+theorem bn_lsh_exact (hw : 0 < cfg.w) (a : Bn) (k : Nat) (ha : a.WF cfg.B) :
+    Exact cfg.B (bnLsh cfg a k) (a.toInt cfg.B * 2 ^ k) := bnLsh_exact cfg hw a k ha
+
+/-- bn_rsh is the floor shift for non-negative operands (and whenever no one-bit is dropped);
+    PARTIAL: for a < 0 with dropped bits the code shifts the magnitude — see `bn_rsh_neg_counter`. -/
+theorem bn_rsh_exact_partial (hw : 0 < cfg.w) (a : Bn) (k : Nat) (ha : a.WF cfg.B)
+    (hg : 0 ≤ a.toInt cfg.B ∨ (2 : Int) ^ k ∣ a.toInt cfg.B) :
+    Exact cfg.B (bnRsh cfg a k) (Int.fdiv (a.toInt cfg.B) (2 ^ k)) := bnRsh_exact cfg hw a k ha hg
+
+theorem bn_hlv_exact_partial (hw : 0 < cfg.w) (a : Bn) (ha : a.WF cfg.B)
+    (hg : 0 ≤ a.toInt cfg.B ∨ (2 : Int) ∣ a.toInt cfg.B) :
+    Exact cfg.B (bnHlv cfg a) (Int.fdiv (a.toInt cfg.B) 2) := bnHlv_exact cfg hw a ha hg
+
+/-- known finding F3: the full-strength statement is false of the code (and of the model) -/
+theorem bn_rsh_neg_counter :
+    bnRsh { w := 64, cap := 34 } { neg := true, dp := [7] } 1 = some { neg := true, dp := [3] }
+    ∧ Int.fdiv (-7) (2 ^ 1) = -4 := by decide
+
+theorem bn_hlv_neg_counter :
+    bnHlv { w := 64, cap := 34 } { neg := true, dp := [7] } = some { neg := true, dp := [3] }
+    ∧ Int.fdiv (-7) 2 = -4 := by decide
+
+/-! ### comparison -/
+theorem bn_cmp_abs_exact (hw : 0 < cfg.w) (a b : Bn) (ha : a.WF cfg.B) (hb : b.WF cfg.B) :
+    bnCmpAbs a b = (if (a.toInt cfg.B).natAbs < (b.toInt cfg.B).natAbs then -1
+                    else if (a.toInt cfg.B).natAbs > (b.toInt cfg.B).natAbs then 1 else 0) :=
+  bnCmpAbs_exact cfg hw a b ha hb
+
+theorem bn_cmp_exact (hw : 0 < cfg.w) (a b : Bn) (ha : a.WF cfg.B) (hb : b.WF cfg.B) :
+    bnCmp a b = (if a.toInt cfg.B < b.toInt cfg.B then -1
+                 else if a.toInt cfg.B > b.toInt cfg.B then 1 else 0) := bnCmp_exact cfg hw a b ha hb
+
+theorem bn_cmp_dig_exact (hw : 0 < cfg.w) (a : Bn) (d : Nat) (ha : a.WF cfg.B) (hd : d < cfg.B) :
+    bnCmpDig a d = (if a.toInt cfg.B < d then -1 else if a.toInt cfg.B > d then 1 else 0) :=
+  bnCmpDig_exact cfg hw a d ha hd
+
+/-! ### division -/
+/-- floor division with remainder of the sign of the divisor, for every sign pattern and every length,
+    including the quotient-estimate and add-back branches of Knuth D (Lemmas/KnuthD.lean) -/
+theorem bn_div_rem_exact (hw : 2 ≤ cfg.w) (a b : Bn) (ha : a.WF cfg.B) (hb : b.WF cfg.B) :
+    ∀ q r tr, bnDivRem cfg a b = some (q, r, tr) →
+      q.WF cfg.B ∧ r.WF cfg.B ∧ q.toInt cfg.B = Int.fdiv (a.toInt cfg.B) (b.toInt cfg.B)
+      ∧ r.toInt cfg.B = Int.fmod (a.toInt cfg.B) (b.toInt cfg.B) := bnDivRem_exact cfg hw a b ha hb
+
+theorem bn_div_rem_zero (a b : Bn) (hb : b.toInt cfg.B = 0) (hbw : b.WF cfg.B) : bnDivRem cfg a b = none :=
+  bnDivRem_zero cfg a b hb hbw
+
+/-- single-digit division; PARTIAL: exact for a ≥ 0 or b ∣ a — see `bn_div_dig_neg_counter` (F2) -/
+theorem bn_div_rem_dig_exact_partial (hw : 0 < cfg.w) (a : Bn) (b : Nat) (ha : a.WF cfg.B) (hb0 : 0 < b)
+    (hbB : b < cfg.B) (hg : 0 ≤ a.toInt cfg.B ∨ (b : Int) ∣ a.toInt cfg.B) :
+    ∀ q r, bnDivRemDig cfg a b = some (q, r) →
+      q.WF cfg.B ∧ q.toInt cfg.B = Int.fdiv (a.toInt cfg.B) b ∧ (r : Int) = Int.fmod (a.toInt cfg.B) b :=
+  bnDivRemDig_exact cfg hw a b ha hb0 hbB hg
+
+theorem bn_div_dig_neg_counter :
+    bnDivRemDig { w := 64, cap := 34 } { neg := true, dp := [7] } 2 = some ({ neg := true, dp := [3] }, 1)
+    ∧ Int.fdiv (-7) 2 = -4 := by decide
+
+/-! ### bit access -/
+theorem bn_bits_exact (hw : 0 < cfg.w) (a : Bn) (ha : a.WF cfg.B) :
+    bnBitsW cfg.w a = (if a.toInt cfg.B = 0 then 0 else Nat.log2 (a.toInt cfg.B).natAbs + 1) :=
+  bnBits_exact cfg hw a ha
+
+theorem bn_get_bit_exact (hw : 0 < cfg.w) (a : Bn) (k : Nat) (ha : a.WF cfg.B) :
+    bnGetBit cfg.w a k = ((a.toInt cfg.B).natAbs >>> k) % 2 := bnGetBit_exact cfg hw a k ha
+
+theorem bn_set_2b_exact (hw : 0 < cfg.w) (k : Nat) :
+    Exact cfg.B (bnSet2b cfg k) (2 ^ k) ∧ (k < cfg.cap * cfg.w → (bnSet2b cfg k).isSome) :=
+  bnSet2b_exact cfg hw k
+
+/-! ### non-vacuity: the hypotheses are met by concrete non-trivial states -/
+example : ({ neg := true, dp := [5, 0, 7] } : Bn).WF (2 ^ 64) := by decide
+example : bnAdd { w := 8, cap := 66 } { neg := false, dp := [255, 255] } { neg := false, dp := [1] }
+    = some { neg := false, dp := [0, 0, 1] } := by decide
+example : (bnDivRem { w := 8, cap := 66 } { neg := true, dp := [7] } { neg := false, dp := [2] }).map
+    (fun x => (x.1, x.2.1)) = some ({ neg := true, dp := [4] }, { neg := false, dp := [1] }) := by decide
+
 end Relic.Props.C01
